@@ -217,3 +217,10 @@ package layer
 //@ func util/namedmutex.(*NamedMutex).Unlock
 //@   trusted
 //@   ensures true
+
+// ---- C01: Verify succeeds only if the TOC in use hashes to the digest it was given, every time it is called ----
+//@ uf tocOf(ref) string
+//@ func (l *layer) Verify
+//@   props C01
+//@   requires l.verifiableReader != nil && l.verifiableReader.r != nil && l.verifiableReader.r.r != nil
+//@   ensures[C01] err == nil ==> l.r != nil && tocOf(payload(l.verifiableReader.r.r)) == tocDigest
